@@ -29,6 +29,23 @@ pub struct C04 {
 	twin: Option<TwinRx>,
 	twin_tried: bool,
 	twin_head: Vec<Step>,
+	/// scripted "twin cancel": account A of a wallet holds a finalized, not yet broadcast
+	/// send; account B (same log-id counter) starts a send, reserves and cancels it - never
+	/// broadcast, so within the property's histories; then A's transaction is posted and
+	/// mined and both accounts are refreshed
+	twin_cancel: Option<TwinCancel>,
+}
+
+struct TwinCancel {
+	w: usize,
+	o: usize,
+	a: String,
+	b: String,
+	stage: u32,
+	m_a1: Option<usize>,
+	m_a2: Option<usize>,
+	m_a3: Option<usize>,
+	m_b1: Option<usize>,
 }
 
 struct TwinRx {
@@ -73,7 +90,44 @@ impl C04 {
 			twin: None,
 			twin_tried: false,
 			twin_head: vec![],
+			twin_cancel: None,
 		}
+	}
+
+	fn twin_cancel_step(&mut self, run: &mut Run) -> Option<Step> {
+		let t = self.twin_cancel.as_mut()?;
+		let (w, o) = (t.w, t.o);
+		let small = |run: &mut Run| {
+			let mut a = SendArgs::simple(run.rng.range(1, 9) * 100_000_000 + run.rng.below(1000));
+			a.min_conf = 1;
+			a.max_outputs = 500;
+			a.num_change = 1;
+			a
+		};
+		let op = match t.stage {
+			0 => Op::SetAccount { w, label: t.a.clone() },
+			1 => Op::Refresh { w },
+			2 => Op::SetAccount { w, label: t.b.clone() },
+			3 => Op::Refresh { w },
+			4 => Op::SetAccount { w, label: t.a.clone() },
+			5 => Op::InitSend { w, args: small(run) },
+			6 => Op::Receive { w: o, m: t.m_a1?, dest: None, enc: crate::ops::Enc::Mem },
+			7 => Op::Lock { w, m: t.m_a1? },
+			8 => Op::Finalize { w, m: t.m_a2?, foreign: false },
+			9 => Op::SetAccount { w, label: t.b.clone() },
+			10 => Op::InitSend { w, args: small(run) },
+			11 => Op::Lock { w, m: t.m_b1? },
+			12 => Op::Cancel { w, m: t.m_b1, id: None },
+			13 => Op::SetAccount { w, label: t.a.clone() },
+			14 => Op::Post { w, m: t.m_a3? },
+			15 => Op::Mine { w: None, n: 1, txs: true },
+			16 => Op::Refresh { w },
+			17 => Op::SetAccount { w, label: t.b.clone() },
+			18 => Op::Refresh { w },
+			_ => return None,
+		};
+		t.stage += 1;
+		Some(Step::new(op))
 	}
 
 	fn relay_step(&mut self, run: &mut Run) -> Option<Step> {
@@ -374,10 +428,23 @@ impl C04 {
 								.as_ref()
 								.map(|t| t.outputs().iter().map(|o| o.commitment()).collect())
 								.unwrap_or_default();
+							// "reserved by a later transaction" is meant literally: the change
+							// is an input of another transaction this wallet pays (a record that
+							// merely carries another log id - e.g. one a scan restored after it
+							// had been deleted - is something else)
 							let change_taken = snap.outputs.iter().any(|o| {
 								(d.change.iter().any(|(k, _)| *k == o.key_id.to_hex())
 									|| tx_outs.contains(&run.ex.world.commit_of(w, o)))
 									&& o.tx_log_entry != Some(e.id)
+									&& run.model.deals.iter().any(|other| {
+										other.id != d.id
+											&& other.payer == Some(w)
+											&& other
+												.inputs
+												.iter()
+												.chain(other.reserved.iter())
+												.any(|(k, _)| *k == o.key_id.to_hex())
+									})
 							});
 							sig = if change_taken {
 								"mined_sent_entry_unconfirmed:change_reserved_by_later_tx".to_owned()
@@ -415,6 +482,12 @@ impl Prop for C04 {
 				None => self.relay = None,
 			}
 		}
+		if self.twin_cancel.is_some() {
+			match self.twin_cancel_step(run) {
+				Some(s) => return Some(s),
+				None => self.twin_cancel = None,
+			}
+		}
 		if let Some(s) = self.twin_head.pop() {
 			return Some(s);
 		}
@@ -448,6 +521,21 @@ impl Prop for C04 {
 				let payers: Vec<usize> = (0..nw).filter(|o| *o != w && run.ex.world.is_open(*o) && HistGen::spendable(run, *o) > 10_000_000_000).collect();
 				if let Some(o) = payers.first().cloned() {
 					let labels: Vec<String> = self.gen.labels[w].iter().take(2).cloned().collect();
+					if run.rng.chance(1, 2) && self.gen.cfg.fund_blocks.get(w).cloned().unwrap_or(0) > 0 {
+						run.cov.probe("twin_cancel_script_started");
+						self.twin_cancel = Some(TwinCancel {
+							w,
+							o,
+							a: labels[0].clone(),
+							b: labels[1].clone(),
+							stage: 0,
+							m_a1: None,
+							m_a2: None,
+							m_a3: None,
+							m_b1: None,
+						});
+						return self.twin_cancel_step(run);
+					}
 					let mut scripts = vec![];
 					for l in labels.iter().rev() {
 						let mut a = SendArgs::simple(run.rng.range(1, 4) * 1_000_000_000 + run.rng.below(1000));
@@ -511,6 +599,18 @@ impl Prop for C04 {
 		let mut v = vec![];
 		self.gen.feedback(run, step, out);
 		self.update_taint(run, step, out);
+		if let Some(t) = self.twin_cancel.as_mut() {
+			match (&step.op, out.new_msg) {
+				(Op::InitSend { .. }, Some(m)) if t.stage == 6 => t.m_a1 = Some(m),
+				(Op::Receive { .. }, Some(m)) if t.stage == 7 => t.m_a2 = Some(m),
+				(Op::Finalize { .. }, Some(m)) if t.stage == 9 => t.m_a3 = Some(m),
+				(Op::InitSend { .. }, Some(m)) if t.stage == 11 => t.m_b1 = Some(m),
+				_ => {}
+			}
+			if !out.ok && !matches!(step.op, Op::Refresh { .. } | Op::Mine { .. }) {
+				self.twin_cancel = None;
+			}
+		}
 		if let Some(t) = self.twin.as_mut() {
 			if let Some(sc) = t.scripts.last_mut() {
 				sc.feedback(step, out);
